@@ -161,9 +161,9 @@ PROPS = {
                            'the statement "float result >= exact need" is false at extreme magnitudes (C05_float_short_witness, finding T2). Proved instead: for every rounding function obeying the standard model with unit round-off u (relative error <= u per operation, integers up to 2^53 exact) the value that is ceiled differs from the exact one by at most (n/T)(8uP+4uT) = 8u*N + 4u*n (C05_float_error; from zero: 4u*N, C05_from_zero_float_error), so the requested count is within one node of the exact minimal count whenever that budget is below 1 (C05_float_within_one, C05_from_zero_within_one); rne64, the function the driver executes and Go is compared with bit for bit, obeys the standard model with u = 2^-53 (StdModel_rne64, C05_rne64_within_one). Sufficiency of the float result: the exact value exceeds every integer below it by at least 1/(s*T), so whenever the budget is below that granularity - with u = 2^-53: (8N+4n)*s*T < 2^53 - the float pipeline never asks for fewer than the exact minimal count (C05_float_sufficient), and n + delta lies in [N, N+1], N = ceil(100R/(sT)) (C05_float_full_in_region; C05_rne64_full_in_region for the executed model). Outside that region the property is false (T2) and the exact-rational monitor decides each observed delta. From zero: within one node (C05_from_zero_within_one); sufficiency from zero is monitored, not proved.',
                 level_note=LEVEL_NOTE + ' Go float64 arithmetic = IEEE-754 binary64 RNE (checked bit-for-bit against the model on every run, not proved).'),
     'C06': dict(level='proof', module='EscProofs.P.C06Float',
-                streams=dict(quick=[('scenario', ['-dir', '@ROOT/corpus/C06']), ('hist', ['-n', 400, '-scans', 10, '-focus', 'bands']), ('hist', ['-n', 150, '-scans', 8, '-focus', 'rotate']), ('arith', ['-n', 20000])],
-                             thorough=[('scenario', ['-dir', '@ROOT/corpus/C06']), ('hist', ['-n', 20000, '-scans', 12, '-focus', 'bands']), ('hist', ['-n', 5000, '-scans', 10, '-focus', 'rotate']), ('arith', ['-n', 1000000])],
-                             search=[('hist', ['-n', 1500, '-scans', 12, '-focus', 'bands']), ('hist', ['-n', 800, '-scans', 10, '-focus', 'rotate']), ('arith', ['-n', 100000])]),
+                streams=dict(quick=[('scenario', ['-dir', '@ROOT/corpus/C06']), ('hist', ['-n', 400, '-scans', 10, '-focus', 'bands']), ('hist', ['-n', 150, '-scans', 8, '-focus', 'rotate']), ('arith', ['-n', 20000]), ('hist', ['-n', 16, '-scans', 6, '-focus', 'up', '-slow'])],
+                             thorough=[('scenario', ['-dir', '@ROOT/corpus/C06']), ('hist', ['-n', 20000, '-scans', 12, '-focus', 'bands']), ('hist', ['-n', 5000, '-scans', 10, '-focus', 'rotate']), ('arith', ['-n', 1000000]), ('hist', ['-n', 160, '-scans', 6, '-focus', 'up', '-slow'])],
+                             search=[('hist', ['-n', 1500, '-scans', 12, '-focus', 'bands']), ('hist', ['-n', 800, '-scans', 10, '-focus', 'rotate']), ('arith', ['-n', 100000]), ('hist', ['-n', 32, '-scans', 6, '-focus', 'up', '-slow'])]),
                 aspects=['hist:taintadds', 'hist:untaints', 'hist:resize', 'hist:delta'], monitors=['C06'],
                 theorems=['Esc.P.C06_bands', 'Esc.P.C06_triggers', 'Esc.P.C06_triggers_off', 'Esc.P.C06_taint_rate', 'Esc.P.C06_idle_band',
                           'Esc.P.C06_up_never_taints', 'Esc.P.C06_down_never_adds', 'Esc.P.taintLoop_count_all_ok',
@@ -239,9 +239,9 @@ PROPS = {
                 level_note=LEVEL_NOTE + ' YAML parsing itself (yaml.NewYAMLOrJSONDecoder) and time.ParseDuration are trusted library code; durations reach the model as the values the accessors returned.'),
     'C17': dict(level='proof', module='EscProofs.P.C17',
                 # controller-level histories too: what the provider is asked, and from which description of the group (refresh failures: 5 s of real sleep each)
-                streams=dict(quick=[('awsops', ['-n', 3000]), ('fleetops', ['-n', 96]), ('hist', ['-n', 250, '-scans', 10, '-focus', 'up']), ('hist', ['-n', 16, '-scans', 6, '-focus', 'up', '-slow'])],
-                             thorough=[('awsops', ['-n', 200000]), ('fleetops', ['-n', 1600]), ('hist', ['-n', 10000, '-scans', 12, '-focus', 'up']), ('hist', ['-n', 160, '-scans', 6, '-focus', 'up', '-slow'])],
-                             search=[('awsops', ['-n', 20000]), ('fleetops', ['-n', 300]), ('hist', ['-n', 1500, '-scans', 12, '-focus', 'up']), ('hist', ['-n', 32, '-scans', 6, '-focus', 'up', '-slow'])]),
+                streams=dict(quick=[('awsops', ['-n', 3000]), ('fleetops', ['-n', 96]), ('hist', ['-n', 250, '-scans', 10, '-focus', 'up']), ('hist', ['-n', 16, '-scans', 6, '-focus', 'up', '-slow']), ('hist', ['-n', 250, '-scans', 10, '-focus', 'multi'])],
+                             thorough=[('awsops', ['-n', 200000]), ('fleetops', ['-n', 1600]), ('hist', ['-n', 10000, '-scans', 12, '-focus', 'multi']), ('hist', ['-n', 10000, '-scans', 12, '-focus', 'up']), ('hist', ['-n', 160, '-scans', 6, '-focus', 'up', '-slow'])],
+                             search=[('awsops', ['-n', 20000]), ('fleetops', ['-n', 300]), ('hist', ['-n', 1500, '-scans', 12, '-focus', 'up']), ('hist', ['-n', 32, '-scans', 6, '-focus', 'up', '-slow']), ('hist', ['-n', 1500, '-scans', 12, '-focus', 'multi'])]),
                 aspects=['journal', 'outcome', 'hist:resize'], monitors=['C17'],
                 theorems=['Esc.P.C17_increase', 'Esc.P.C17_reject', 'Esc.P.C17_never_lowers', 'Esc.P.C17_attach_partition', 'Esc.P.C17_batch_limits',
                           'Esc.P.mkFleetReq_ok'],
